@@ -28,9 +28,11 @@ namespace tbb {
 namespace detail {
 namespace d2 {
 
-template <typename QueueRep, typename Allocator>
-std::pair<bool, ticket_type> internal_try_pop_impl(void* dst, QueueRep& queue, Allocator& alloc ) {
+// `skipped_ticket` is called for every claimed ticket whose entry turned out to be invalid (left by a push that threw).
+template <typename QueueRep, typename Allocator, typename SkippedTicket>
+std::pair<bool, ticket_type> internal_try_pop_impl(void* dst, QueueRep& queue, Allocator& alloc, const SkippedTicket& skipped_ticket ) {
     ticket_type ticket{};
+    bool popped{};
     do {
         // Basically, we need to read `head_counter` before `tail_counter`. To achieve it we build happens-before on `head_counter`
         ticket = queue.head_counter.load(std::memory_order_acquire);
@@ -42,7 +44,11 @@ std::pair<bool, ticket_type> internal_try_pop_impl(void* dst, QueueRep& queue, A
             // Queue had item with ticket k when we looked.  Attempt to get that item.
             // Another thread snatched the item, retry.
         } while (!queue.head_counter.compare_exchange_strong(ticket, ticket + 1));
-    } while (!queue.choose(ticket).pop(dst, ticket, queue, alloc));
+        popped = queue.choose(ticket).pop(dst, ticket, queue, alloc);
+        if (!popped) {
+            skipped_ticket(ticket);
+        }
+    } while (!popped);
     return { true, ticket };
 }
 
@@ -247,7 +253,7 @@ private:
     }
 
     bool internal_try_pop( void* dst ) {
-        return internal_try_pop_impl(dst, *my_queue_representation, my_allocator).first;
+        return internal_try_pop_impl(dst, *my_queue_representation, my_allocator, [](ticket_type) {}).first;
     }
 
     template <typename Container, typename Value, typename A>
@@ -601,6 +607,7 @@ private:
         std::ptrdiff_t target;
         // This loop is a single pop operation; abort_counter should not be re-read inside
         unsigned old_abort_counter = my_abort_counter.load(std::memory_order_relaxed);
+        bool popped{};
 
         do {
             target = my_queue_representation->head_counter++;
@@ -620,15 +627,21 @@ private:
                 });
             }
             __TBB_ASSERT(static_cast<std::ptrdiff_t>(my_queue_representation->tail_counter.load(std::memory_order_relaxed)) > target, nullptr);
-        } while (!my_queue_representation->choose(target).pop(dst, target, *my_queue_representation, my_allocator));
-
-        r1::notify_bounded_queue_monitor(my_monitors, cbq_slots_avail_tag, target);
+            popped = my_queue_representation->choose(target).pop(dst, target, *my_queue_representation, my_allocator);
+            // The slot of the claimed ticket is vacated even if its entry was invalid (left by a push that threw):
+            // a producer that waits for this slot must be woken in both cases.
+            r1::notify_bounded_queue_monitor(my_monitors, cbq_slots_avail_tag, target);
+        } while (!popped);
     }
 
     bool internal_pop_if_present( void* dst ) {
         bool present{};
         ticket_type ticket{};
-        std::tie(present, ticket) = internal_try_pop_impl(dst, *my_queue_representation, my_allocator);
+        std::tie(present, ticket) = internal_try_pop_impl(dst, *my_queue_representation, my_allocator,
+            [&](ticket_type skipped) {
+                // The slot of an invalid entry (left by a push that threw) is vacated as well: wake the producer waiting for it.
+                r1::notify_bounded_queue_monitor(my_monitors, cbq_slots_avail_tag, skipped);
+            });
 
         if (present) {
             r1::notify_bounded_queue_monitor(my_monitors, cbq_slots_avail_tag, ticket);
